@@ -126,8 +126,57 @@ fn second_file(eol: &str, spelling: usize, final_eol: bool) -> String {
     s
 }
 
+/// MC_DocSplit: a doc comment whose lines are separated by directives / blocks that are not selected
+fn run_doc_split(case: &Value) -> Outcome {
+    let gap_text = |g: &str| -> &'static str {
+        match g {
+            "define" => "#define Q\n",
+            "undef" => "#undef Q\n",
+            "unselected" => "#if NOPE\nstruct Hidden {}\n#endif\n",
+            "emptyselected" => "#if !NOPE\n#endif\n",
+            "elseunselected" => "#if !NOPE\n#else\nstruct Hidden {}\n#endif\n",
+            _ => "",
+        }
+    };
+    let gaps = strs(&case["gaps"]);
+    let mut text = String::from("module M\n");
+    for i in 0..=gaps.len() {
+        text.push_str(&format!("/// See {{@link Nope{}}}.\n", i + 1));
+        if i < gaps.len() {
+            text.push_str(gap_text(&gaps[i]));
+        }
+    }
+    text.push_str(gap_text(case["last"].as_str().unwrap_or("none")));
+    text.push_str("struct Documented {}\n");
+    let rendered = json!({"file": text});
+    let key = hash_str(&text);
+    let state = slicec::compile_from_strings(&[&text], None);
+    let struct_row = state.ast.find_element::<slicec::grammar::Struct>("M::Documented").ok().map(|s| {
+        use slicec::grammar::Symbol;
+        s.span().start.row
+    });
+    let diags = state.into_diagnostics(&Default::default());
+    let errors: Vec<String> = diags.iter().filter(|d| d.level() == DiagnosticLevel::Error).map(|d| d.code().to_owned()).collect();
+    let mut links: Vec<(usize, usize)> = diags.iter().filter(|d| d.code() == "BrokenDocLink").filter_map(|d| d.span().map(|s| (s.start.row, s.start.col))).collect();
+    links.sort();
+    let want: Vec<(usize, usize)> = case["rows"].as_array().cloned().unwrap_or_default().iter().map(|r| (r.as_u64().unwrap_or(0) as usize, 16)).collect();
+    let fail = if !errors.is_empty() {
+        Some(mismatch("a doc comment interrupted by directives is a doc comment", json!([]), json!(errors)))
+    } else if links != want {
+        Some(mismatch("positions of the broken-link warnings of the comment lines (each at the identifier of its link, rows and columns of the text as written)", json!(want), json!(links)))
+    } else if struct_row.map(|r| r as u64) != case["structRow"].as_u64() {
+        Some(mismatch("row of the documented struct", case["structRow"].clone(), json!(struct_row)))
+    } else {
+        None
+    };
+    Outcome { fail, nontrivial: gaps.iter().any(|g| g != "none"), key, rendered }
+}
+
 impl Family for Preproc {
     fn run(&mut self, case: &Value) -> Outcome {
+        if case["docsplit"] == true {
+            return run_doc_split(case);
+        }
         let lines = case["lines"].as_array().cloned().unwrap_or_default();
         let h = hash_str(&case["lines"].to_string());
         let which = (h % STYLES.len() as u64) as usize;
